@@ -684,6 +684,7 @@ const (
 )
 
 type c29rthread struct {
+	back int32 // 1 once the call of the code under test has returned
 	st   int32
 	key  int
 	ret  string // readable result of Start
@@ -873,6 +874,7 @@ func (s *c29rc) apply(o *c29rop) bool {
 			return true
 		}
 		th.key = o.a
+		atomic.StoreInt32(&th.back, 0)
 		atomic.StoreInt32(&th.st, rsInStart)
 		key := o.a
 		go func() {
@@ -887,6 +889,7 @@ func (s *c29rc) apply(o *c29rop) bool {
 				th.retc = c29retCode(th.ret)
 				atomic.StoreInt32(&th.st, rsRet)
 			}
+			atomic.StoreInt32(&th.back, 1)
 		}()
 	case 2:
 		th := s.th[o.c]
@@ -924,7 +927,7 @@ func (s *c29rc) apply(o *c29rop) bool {
 		// Refresh never blocks (10000 workers; Stat and the store are local): a caller that looks
 		// blocked is inside a lock or file operation of the store, so wait for it to return
 		deadline := time.Now().Add(20 * time.Second)
-		for atomic.LoadInt32(&s.th[o.c].st) == rsInStart {
+		for atomic.LoadInt32(&s.th[o.c].back) == 0 {
 			if time.Now().After(deadline) {
 				return false
 			}
